@@ -4,7 +4,7 @@
    pre-order walk of the trie (HttpRouterIter) after the visibility filter;
    [undoc t] is the template as the document shows it (a wildcard appears as
    {name}). *)
-From DS Require Import Base Versions VersionsProofs Router RouterSpec RouterProofs OpenApiGen OpenApiGenProofs.
+From DS Require Import Base Versions VersionsProofs Router RouterSpec RouterProofs OpenApiGen OpenApiGenProofs RefClosure.
 From Coq Require Import Permutation.
 
 Section C06.
@@ -54,6 +54,24 @@ Section C06.
   Proof. exact (documented_is_served V cmp bot TO). Qed.
 End C06.
 
+(* 5. references resolve inside the document: the definitions gathered for a
+   parameter / header / error schema (ReferenceVisitor: RefClosure.v) contain
+   every reference of the schema itself, are closed under references — every
+   name a gathered definition mentions is gathered too — contain only what is
+   reachable, and the only failure is a reference to a name the generator
+   does not define *)
+Theorem C06_dependencies_closed : forall d roots out,
+  dependencies d roots = Ok out ->
+  incl roots out /\
+  (forall n rs m, In n out -> refs_of d n = Some rs -> In m rs -> In m out) /\
+  (forall n, In n out -> reach d roots n) /\
+  (forall n, In n out -> refs_of d n <> None).
+Proof. exact dependencies_closed. Qed.
+
+Theorem C06_invalid_reference_only_if_undefined : forall d roots n,
+  dependencies d roots = Err (CE_invalid_ref n) -> reach d roots n /\ refs_of d n = None.
+Proof. exact dependencies_invalid_ref. Qed.
+
 (* non-vacuity *)
 Definition ex_ep (id m : str) (r : vrange N) (vis : bool) : endpoint N := mkEp id m r 0 None vis.
 Definition ex_table : list (decl N) :=
@@ -75,3 +93,5 @@ Print Assumptions C06_doc_unique.
 Print Assumptions C06_unpublished_omitted_yet_served.
 Print Assumptions C06_doc_order_irrelevant.
 Print Assumptions C06_documented_is_served.
+Print Assumptions C06_dependencies_closed.
+Print Assumptions C06_invalid_reference_only_if_undefined.
